@@ -3,6 +3,8 @@
 EXTENDS Content
 
 Cont(u, c, v) == [units |-> u, cuts |-> c, valid |-> v]
+KindsPlain == {"plain"}
+KindsAll == {"plain", "subclass", "snapshot", "subsnapshot"}
 CatNone == {}
 \* valid contents cut inside a character / with an empty chunk, and truncated ones (their flush raises)
 CatQuick == { Cont(<<"L2", "C">>, <<1, 1>>, TRUE),
